@@ -416,6 +416,11 @@ func c13Bubble(tp *core.Tape, e *core.Env) (ops []string) {
 				continue
 			}
 			spec := &sidecarsim.TargetSpec{Payload: payload, Gzip: gz, Fail: "break", FailOffset: off, Chunks: []int{1 + tp.Choose("chunk", 64)}}
+			if tp.Bool("break_is_reset", 1, 3) {
+				// the target's connection is reset (RST) rather than closed early
+				spec.Reset = true
+				e.Probe("break_by_connection_reset")
+			}
 			if tp.Bool("break_only_once", 1, 2) {
 				// the connection breaks once (target restarting, stale keep-alive); a second request would
 				// be answered properly: the scrape Prometheus asked for has failed all the same
